@@ -13,6 +13,7 @@ from __future__ import annotations
 
 import copy
 import gc
+import os
 import itertools
 import time
 
@@ -156,17 +157,18 @@ _BASE = {}
 
 def episode_item(item):
     """item = (variant name, history tuple). Returns (steps compared, violations)."""
-    vname, hist = item
+    vname, hist = item[0], item[1]
+    seed = item[2] if len(item) > 2 else 7
     v = [g for g in VARIANTS if g["name"] == vname][0]
     cfg = HE.gen_scenario(v) if "path" not in v else v["path"]
     cfgd = cfg if not isinstance(cfg, str) else HE.load_yaml(cfg)
     probe = probe_script(cfgd)
-    key = vname
+    key = (vname, seed)
     if key not in _BASE:
-        _BASE[key] = _run(cfg, [], 7, probe, keep=True)[:2]
+        _BASE[key] = _run(cfg, [], seed, probe, keep=True)[:2]
     base_d, base_x = _BASE[key]
     try:
-        digs, det, env, old_game = _run(cfg, list(hist), 7, probe, keep=True)
+        digs, det, env, old_game = _run(cfg, list(hist), seed, probe, keep=True)
     except Exception as e:  # noqa - a raising step is C01's business
         return 0, []
     viols = []
@@ -175,8 +177,8 @@ def episode_item(item):
     if digs != base_d:
         t = next(i for i, (a, b) in enumerate(zip(digs, base_d)) if a != b)
         d = first_diff(base_x[t], det[t])
-        viols.append(violation("episode_after_reset_equals_fresh_episode", "dirty:%s:%s" % (sig_hist, _leafsig(d)),
-                               "variant %s: after history %r and reset(seed=7) the episode differs from a fresh environment's at probe "
+        viols.append(violation("episode_after_reset_equals_fresh_episode", "dirty:%s:%s%s" % (sig_hist, _leafsig(d), ":seed=0" if seed == 0 else ""),
+                               "variant %s: after history %r and reset(seed=<seed>) the episode differs from a fresh environment's at probe "
                                "step %d: %s fresh=%r dirty=%r" % (vname, names, t, d[0] if d else "?", d[1] if d else "?", d[2] if d else "?")))
     new_ids = _reachable_ids(env.game)
     old_ids = _reachable_ids(old_game)
@@ -241,6 +243,8 @@ PAIRS = {
     "other-topology": (_A, dict(HE.GEN[3], name="B", ep_len=30, det=True)),
     "nmne-off-in-B": (_A, dict(_A, name="B", nmne=False)),
     "flat-noscan-B": (_A, dict(HE.GEN[1], name="B", ep_len=30, det=True)),
+    # B's scenario has no nmne_config section at all (it must then run with the documented default: no capture)
+    "no-nmne-section-in-B": (_A, dict(_A, name="B", drop_nmne_section=True)),
     # stochastic settings: A's red agent and bot draw from the process-wide 'random' module
     "stochastic": (dict(_A, det=False), dict(_A, name="B", det=False)),
 }
@@ -275,7 +279,15 @@ def instance_item(item):
 
     va, vb = PAIRS[pair]
     ca, cb = HE.gen_scenario(va), HE.gen_scenario(vb)
+    if vb.get("drop_nmne_section"):
+        cb["simulation"]["network"].pop("nmne_config", None)
     pa, pb = _prog_a(na_steps), _prog_b(nb_steps)
+    # B is compared with B run alone as well (only the part of B's program before close)
+    if ("B", pair, nb_steps) not in _SOLO:
+        seams.reset()
+        stb = {}
+        _SOLO[("B", pair, nb_steps)] = [_exec(pb, cb, stb, op, 22) for op in pb]
+    solo_b = _SOLO[("B", pair, nb_steps)]
     if (pair, na_steps) not in _SOLO:
         seams.reset()
         st = {}
@@ -285,17 +297,22 @@ def instance_item(item):
     sa, sb = {}, {}
     ia = ib = 0
     got = []
+    got_b = []
     for who in order:
         if who == "A":
             got.append(_exec(pa, ca, sa, pa[ia], 21))
             ia += 1
         else:
-            try:
-                _exec(pb, cb, sb, pb[ib], 22)
-            except Exception:  # noqa
-                pass
+            got_b.append(_exec(pb, cb, sb, pb[ib], 22))
             ib += 1
     viols = []
+    if [g[0] for g in got_b] != [x[0] for x in solo_b]:
+        t = next(i for i, (x, y) in enumerate(zip(got_b, solo_b)) if x[0] != y[0])
+        d = first_diff(solo_b[t][1], got_b[t][1])
+        leaf = "/".join(_leafsig(d).split("/")[:8])
+        viols.append(violation("instance_unaffected_by_other_instance", "pair=%s:instance=B:first-differing-leaf=%s" % (pair, leaf),
+                               "pair %s interleaving %s: B's operation %d (%s) differs from B run alone at %s (alone %r, interleaved %r)" % (
+                                   pair, "".join(order), t, pb[t], d[0] if d else "?", d[1] if d else "?", d[2] if d else "?")))
     if [g[0] for g in got] != [x[0] for x in solo]:
         t = next(i for i, (x, y) in enumerate(zip(got, solo)) if x[0] != y[0])
         d = first_diff(solo[t][1], got[t][1])
@@ -322,6 +339,47 @@ def _pos(order, t_a):
 # ------------------------------------------------------------------------------------------------------------
 # (3) schedules
 # ------------------------------------------------------------------------------------------------------------
+def wrap_item(item):
+    """One long-lived environment on an episode schedule: episode j + len(schedule) (the scheduler has looped back) must
+    behave exactly like episode j did (same scenario files, same seed)."""
+    name, n_sched = item
+    from .. import seams
+    import shutil
+
+    Env = HE.import_env()
+    seams.reset()
+    tmp = None
+    if name == "generated-with-router":
+        tmp = HE.make_schedule_dir("/var/tmp/primaite-verif-sched-%d" % os.getpid(), episodes=n_sched)
+        path = tmp
+    else:
+        path = HE.SHIPPED[name]
+    try:
+        env = Env(path)
+        eps = []
+        for ep in range(2 * n_sched + 1):
+            env.reset(seed=50 + (ep % n_sched))
+            rec = [HE.to_plain(env.agent.observation_manager.current_observation)]
+            n = len(env.agent.action_manager.action_map)
+            for t in range(3):
+                r = env.step(0)
+                rec.append(explain(env, r))
+            eps.append(rec)
+    finally:
+        if tmp:
+            shutil.rmtree(tmp, ignore_errors=True)
+    v = []
+    for j in range(n_sched + 1):
+        a, b = eps[j], eps[j + n_sched]
+        if HE.sha(repr(a)) != HE.sha(repr(b)):
+            d = first_diff(a, b)
+            v.append(violation("scheduled_episode_independent_of_earlier_episodes", "wrap-around:%s:%s" % (name, "/".join(_leafsig(d).split("/")[:7])),
+                               "schedule %s: episode %d (after the schedule looped back) differs from episode %d at %s: %r vs %r" % (
+                                   name, j + n_sched, j, d[0] if d else "?", d[1] if d else "?", d[2] if d else "?")))
+            break
+    return (2 * n_sched + 1) * 4, v
+
+
 def schedule_item(item):
     name, n_ep, dirty = item
     from .. import seams
@@ -361,9 +419,11 @@ def replay(doc):
     k = doc["params"]["kind"]
     it = doc["params"]["item"]
     if k == "episode":
-        return episode_item((it[0], tuple(it[1])))[1]
+        return episode_item(tuple([it[0], tuple(it[1])] + list(it[2:])))[1]
     if k == "instance":
         return instance_item((it[0], tuple(it[1]), it[2], it[3]))[1]
+    if k == "wrap":
+        return wrap_item(tuple(it))[1]
     return schedule_item(tuple(it))[1]
 
 
@@ -374,6 +434,7 @@ def run(tier, is_known):
     engine._FUNCS["c04-episode"] = episode_item
     engine._FUNCS["c04-instance"] = instance_item
     engine._FUNCS["c04-schedule"] = schedule_item
+    engine._FUNCS["c04-wrap"] = wrap_item
     viols = []
     # (1)
     items = []
@@ -391,6 +452,9 @@ def run(tier, is_known):
         else:
             hs = [h for h in hs if len(h) < 2] if v is not VARIANTS[0] else hs
         items += [(v["name"], h) for h in hs]
+        # the boundary seed 0 (must re-seed like any other seed): after every single dirtying action and after the empty history
+        if v is VARIANTS[0]:
+            items += [(v["name"], h, 0) for h in hs if len(h) <= 1]
     steps = 0
     n_hist = len(items)
     for item, (n, v) in engine.pmap("c04-episode", episode_item, items, chunksize=2):
@@ -401,7 +465,7 @@ def run(tier, is_known):
     # (2)
     na, nb = (5, 3) if thorough else (3, 1)
     inst_items = []
-    for pair in (PAIRS if thorough else ("same", "nmne-off-in-B", "other-topology", "stochastic")):
+    for pair in (PAIRS if thorough else ("same", "nmne-off-in-B", "no-nmne-section-in-B", "other-topology", "stochastic")):
         for order in interleavings(na + 2, nb + 3):
             inst_items.append((pair, order, na, nb))
     n_inter = len(inst_items)
@@ -419,10 +483,16 @@ def run(tier, is_known):
         for x in v:
             x.update(adapter="c04", params={"kind": "schedule", "item": item}, history=[], event=None)
         viols += v
+    wrap_items = [("generated-with-router", 2), ("sched_mini", 2), ("sched_placeholders", 4)] + ([("sched_uc7_variants", 20)] if thorough else [])
+    for item, (n, v) in engine.pmap("c04-wrap", wrap_item, wrap_items, chunksize=1):
+        steps += n
+        for x in v:
+            x.update(adapter="c04", params={"kind": "wrap", "item": item}, history=[], event=None)
+        viols += v
     seen = {}
     for v in viols:
         seen.setdefault((v["clause"], v["signature"]), v)
-    cov = {"states": n_hist + n_inter + len(sch_items), "transitions": steps, "traces_validated_against_impl": steps,
+    cov = {"states": n_hist + n_inter + len(sch_items) + len(wrap_items), "transitions": steps, "traces_validated_against_impl": steps,
            "samples": [{"dirty_history": list(items[min(len(items) - 1, 30)][1])}, {"interleaving": "".join(inst_items[len(inst_items) // 2][1])}],
            "exhaustive": True, "dirty_histories": n_hist, "interleavings": n_inter, "schedule_runs": len(sch_items),
            "explanation": "all dirty histories up to the bound x differential comparison with a fresh environment; all order-preserving "
